@@ -5,6 +5,7 @@ import (
 	"fmt"
 	"hash"
 	"math/big"
+	"strings"
 	"sync"
 	"sync/atomic"
 
@@ -22,6 +23,7 @@ import (
 	"verifharness/core"
 	"verifharness/gen"
 	"verifharness/libsa"
+	"verifharness/mon"
 	"verifharness/ref"
 )
 
@@ -303,7 +305,35 @@ func c07TwoParty(k *core.Case) {
 		rprop := back.Payloads[0].(*message.SecurityAssociation).Proposals[0]
 		nonces := k.R.Bytes(k.R.Range(32, 96))
 		spii, spir := msg.InitiatorSPI, k.R.U64()
-		resp, pubR, err := security.NewIKESAKey(rprop, pubI, nonces, spii, spir)
+		var resp *security.IKESAKey
+		var pubR []byte
+		if k.Index%6 == 4 {
+			// the responder's random stream is chosen so that the FIRST exponent it draws gives a public value with a
+			// leading zero octet (about one exchange in 256): searched over streams with the group arithmetic of math/big
+			pmod := []*big.Int{ref.P1024, ref.P2048}[d]
+			limit := 1500
+			if d == 1 {
+				limit = 700
+			}
+			for t := 0; t < limit; t++ {
+				seed := k.R.U64()
+				var x *big.Int
+				var xerr error
+				mon.WithRand(core.NewRng(seed), func() { x, xerr = security.GenerateRandomNumber() })
+				if xerr != nil {
+					break
+				}
+				if pv := new(big.Int).Exp(big.NewInt(2), x, pmod); pv.BitLen() <= pmod.BitLen()-8 {
+					mon.WithRand(core.NewRng(seed), func() { resp, pubR, err = security.NewIKESAKey(rprop, pubI, nonces, spii, spir) })
+					k.Count("responder_public_value_with_leading_zero_octet", 1)
+					w["responder_random_stream_seed"] = seed
+					break
+				}
+			}
+		}
+		if resp == nil && err == nil {
+			resp, pubR, err = security.NewIKESAKey(rprop, pubI, nonces, spii, spir)
+		}
 		if err != nil || resp == nil {
 			k.Violate("error", "NewIKESAKey-error", fmt.Sprint(err), w)
 			return
@@ -404,7 +434,7 @@ func c07(c *core.Ctx) {
 		}
 		k.Count("colliding_secret_pairs", 1)
 	})
-	c.Require("colliding_secret_pairs", "sa_logged_before_use", "offers_prepared_from_returned_transforms_before", "two_party_runs", "two_party_shared_secret_with_leading_zeros", "held_sa_keys_rechecked", "same_object_keyed_twice")
+	c.Require("responder_public_value_with_leading_zero_octet", "colliding_secret_pairs", "sa_logged_before_use", "offers_prepared_from_returned_transforms_before", "two_party_runs", "two_party_shared_secret_with_leading_zeros", "held_sa_keys_rechecked", "same_object_keyed_twice")
 }
 
 // ---------------------------------------------------------------------------
@@ -805,7 +835,49 @@ func c16(c *core.Ctx) {
 		k.Count("colliding_key_pairs_derived", 1)
 		k.Distinct(fmt.Sprintf("collide|%s|%d", fp.Name, region))
 	})
-	c.Require("colliding_key_pairs_derived")
+	// keys and identities that LOOK like text (hex / base64 / digits / letters) at the lengths such encodings have:
+	// binary inputs are binary whatever they look like
+	c.Family("text-shaped-keys", c.N(600, 60000), func(k *core.Case) {
+		lens := []int{16, 22, 24, 32, 44, 48, 64}
+		ikl, ckl := lens[k.Index%len(lens)], lens[k.Index/len(lens)%len(lens)]
+		if k.Index%3 == 0 {
+			ckl = ikl
+		}
+		ik, ck := gen.Text(k.R, ikl), gen.Text(k.R, ckl)
+		if k.Index%2 == 0 { // both from the same alphabet
+			ik, ck = abs.HB(strings.Repeat(string(gen.Text(k.R, 64)), 1)[:ikl]), gen.Text(k.R, ckl)
+			hexd := "0123456789abcdefABCDEF"
+			for i := range ik {
+				ik[i] = hexd[k.R.Intn(len(hexd))]
+			}
+			for i := range ck {
+				ck[i] = hexd[k.R.Intn(len(hexd))]
+			}
+		}
+		id := gen.Name(k.R)
+		k.Eval(1)
+		var out [5][]byte
+		var err error
+		pn := core.Try(func() {
+			out[0], out[1], out[2], out[3], out[4], err = eap.EapAkaPrimePRF(append([]byte{}, ik...), append([]byte{}, ck...), string(id))
+		})
+		wd := M{"ik": core.Hex(ik), "ck": core.Hex(ck), "identity": core.Hex(id), "ik_text": string(ik), "ck_text": string(ck)}
+		if pn != nil || err != nil {
+			k.Violate("error", "prf'-error/text-shaped-keys", fmt.Sprint(err, pn), wd)
+			return
+		}
+		mk := ref.PrfPrime(append(append([]byte{}, ik...), ck...), append([]byte("EAP-AKA'"), id...), 208)
+		want := [5][]byte{mk[:16], mk[16:48], mk[48:80], mk[80:144], mk[144:208]}
+		for j := range out {
+			if !bytes.Equal(out[j], want[j]) {
+				k.Violate("mismatch", "prf'-mismatch/text-shaped-keys", fmt.Sprintf("output %d differs from the reference for keys that look like text", j), wd)
+				return
+			}
+		}
+		k.Count("text_shaped_keys_derived", 1)
+		k.Distinct(fmt.Sprintf("textkeys|%d|%d", ikl, ckl))
+	})
+	c.Require("colliding_key_pairs_derived", "text_shaped_keys_derived")
 	c.Family("sampled", c.N(40000, 60000000), func(k *core.Case) {
 		if k.R.Chance(2, 3) {
 			c16One(k, 16, 16)
